@@ -28,6 +28,13 @@ CHECKS = {
             'classes at their boundaries) is rendered and parsed by the real parser under all three dialects; the tree '
             'must equal a reference tree written from the grammar; every single (quick) / pair (thorough) placement of '
             'separators over all token gaps is enumerated.', '5.C02'),
+    'C06': ('bounded exhaustive enumeration of tables, INDEX / AUGMENTS relations, object lists and compliance statements '
+            'against a reference model, both back ends',
+            'Tables with 1..3 columns x every INDEX list (own, foreign, imported, hyphenated, IMPLIED) or AUGMENTS target x '
+            'declaration orders; every object list of length 0..3 over local / hyphenated / imported objects in every '
+            'order for the four list-bearing clauses; compliance MODULE parts x MANDATORY-GROUPS x GROUP/OBJECT sequences; '
+            'JSON records and the calls recorded while executing the pysnmp module must name the same objects, order, '
+            'IMPLIED flags and defining modules.', '5.C06'),
     'C11': ('exhaustive enumeration of prefixes, single-token mutations and noise placements on the real parser',
             'Every proper prefix, every single-token deletion/duplication/replacement/insertion and every single noise '
             'character at every offset of the seed texts is parsed; oracle: list of modules or located PySmiLexerError, '
